@@ -1654,6 +1654,29 @@ class AEval(dtable.Eval):
                 return C("Some", T(xs[-1], L(*xs[:-1]))) if xs else C("None")
             if m == "split_first":
                 return C("Some", T(xs[0], L(*xs[1:]))) if xs else C("None")
+            if m in ("fold", "rfold") and len(args) == 2:
+                acc = args[0]
+                for x in (xs if m == "fold" else reversed(xs)):
+                    acc = self.apply(args[1], [acc, x])
+                return acc
+            if m == "try_fold" and len(args) == 2:
+                acc = args[0]
+                for x in xs:
+                    v2 = self.apply(args[1], [acc, x])
+                    if v2[0] == "ctor" and v2[1] in ("Err", "None"):
+                        return v2
+                    if v2[0] == "ctor" and v2[1] in ("Ok", "Some") and v2[2]:
+                        acc = v2[2][0]
+                    else:
+                        raise Unknown("try_fold step")
+                return C("Ok", acc)
+            if m == "reduce" and len(args) == 1 and m not in self.funcs:
+                if not xs:
+                    return C("None")
+                acc = xs[0]
+                for x in xs[1:]:
+                    acc = self.apply(args[0], [acc, x])
+                return C("Some", acc)
             if m == "contains":
                 return B(args[0] in xs)
             if m == "for_each":
@@ -2033,10 +2056,32 @@ class AEval(dtable.Eval):
                 if k == "Let":
                     if "init" not in st:
                         continue
-                    v = self.ex(st["init"], env)
                     ini = st["init"]
                     while is_node(ini) and ini["k"] == "Paren":
                         ini = ini["expr"]
+                    sfm = ini
+                    while is_node(sfm) and sfm["k"] in ("Try",) or (is_node(sfm) and sfm["k"] == "MethodCall" and sfm["method"] in ("unwrap", "expect", "unwrap_at")):
+                        sfm = sfm["expr"] if sfm["k"] == "Try" else sfm["receiver"]
+                    if is_node(sfm) and sfm["k"] == "MethodCall" and sfm["method"] in ("split_first_mut",) and not sfm["args"] and is_node(sfm["receiver"]) and sfm["receiver"]["k"] == "Path" \
+                            and sfm["receiver"]["path"] in env and env[sfm["receiver"]["path"]][0] == "list" and not isinstance(env[sfm["receiver"]["path"]], MutRef) and env[sfm["receiver"]["path"]][1]:
+                        # `let Some((first, rest)) = v.split_first_mut()`: first is a view of v[0], rest a view of v[1..]
+                        vname = sfm["receiver"]["path"]
+                        pp0 = st["pat"]
+                        while pp0["k"] in ("PType", "PRef"):
+                            pp0 = pp0["pat"]
+                        tup = pp0["elems"][0] if pp0["k"] == "PTupleStruct" and pp0.get("elems") else pp0
+                        if tup["k"] == "PTuple" and len(tup["elems"]) == 2 and all(x["k"] == "PIdent" for x in tup["elems"]):
+                            n0, n1 = tup["elems"][0]["name"], tup["elems"][1]["name"]
+                            env[n0] = env[vname][1][0]
+                            env[n1] = MutRef(env, vname, 1, None)
+                            shadow |= {n0, n1}
+                            ln = st.get("line", 0)
+                            aliases[n0] = ({"k": "MethodCall", "method": "unwrap", "args": [], "line": ln,
+                                            "receiver": {"k": "MethodCall", "method": "get_mut", "line": ln, "receiver": {"k": "Path", "path": vname, "line": ln},
+                                                         "args": [{"k": "Lit", "text": "0", "int": 0, "line": ln}]}}, env[n0])
+                            last = UNIT
+                            continue
+                    v = self.ex(st["init"], env)
                     if is_node(ini) and ini["k"] == "MethodCall" and ini["method"] == "iter_mut" and not ini["args"] and is_node(ini["receiver"]) and ini["receiver"]["k"] == "Path" \
                             and ini["receiver"]["path"] in env and env[ini["receiver"]["path"]][0] == "list" and not isinstance(env[ini["receiver"]["path"]], MutRef) and "iter_mut" not in self.builtins:
                         v = MutRef(env, ini["receiver"]["path"], 0, None)
